@@ -50,6 +50,37 @@ theorem valueAt_setup_last (pre post : List Ent) (e : Ent)
   rw [List.foldl_append, List.foldl_cons, valueAt_foldl_other post _ _ _ _ h, valueAt_ins]
   simp
 
+/-- when all assignments to one key carry the same text, that text is the value (whatever their number) -/
+theorem valueAt_foldl_agree (es : List Ent) (e : Ent) : ∀ (T : Table),
+    (e ∈ es ∨ valueAt T e.lang e.path e.form = some e.text) →
+    (∀ e' ∈ es, sameKey e e' → e'.text = e.text) →
+    valueAt (es.foldl ins T) e.lang e.path e.form = some e.text := by
+  induction es with
+  | nil => intro T h _; rcases h with h | h; cases h; exact h
+  | cons a rest ih =>
+    intro T h hag
+    simp only [List.foldl_cons]
+    apply ih
+    · by_cases hk : sameKey e a
+      · right
+        rw [valueAt_ins]
+        unfold sameKey at hk
+        rw [if_pos hk, hag a List.mem_cons_self hk]
+      · rcases h with h | h
+        · rcases List.mem_cons.mp h with h | h
+          · exact absurd (h ▸ ⟨rfl, rfl, rfl⟩) hk
+          · exact Or.inl h
+        · right
+          rw [valueAt_ins]
+          unfold sameKey at hk
+          rw [if_neg hk]; exact h
+    · intro e' he'; exact hag e' (List.mem_cons_of_mem _ he')
+
+theorem valueAt_setup_agree {es : List Ent} {e : Ent} (he : e ∈ es)
+    (hag : ∀ e' ∈ es, sameKey e e' → e'.text = e.text) :
+    valueAt (setup es) e.lang e.path e.form = some e.text :=
+  valueAt_foldl_agree es e [] (Or.inl he) hag
+
 theorem lookup_map_snd {β γ} (G : β → γ) (T : List (Str × β)) (l : Str) :
     lookup l (T.map fun lps => (lps.1, G lps.2)) = (lookup l T).map G := by
   induction T with
